@@ -77,27 +77,45 @@ except subprocess.TimeoutExpired:
     meta["demo_with_change"] = {"rc": "timeout"}
     meta["ran"].append("mutated: demo -> timeout (hang)")
 finally:
-    sh("git -C /repo worktree remove --force %s" % wt)
-    shutil.rmtree(wt, ignore_errors=True)
+    if not ("--scratch" in sys.argv and ok):
+        sh("git -C /repo worktree remove --force %s" % wt)
+        shutil.rmtree(wt, ignore_errors=True)
 meta["confirmed"] = ok
 meta["needs"] = open(notes).read().strip() if os.path.exists(notes) else ""
 verdicts = {}
-if ok:
+
+
+def run_checks(env_extra, label):
+    for c in checks:
+        t0 = time.time()
+        p = subprocess.run("./check.py %s --tier %s" % (c, tier), shell=True, cwd="/verif", capture_output=True, text=True,
+                           env=dict(ENV, **env_extra), timeout=5400)
+        rc, out = p.returncode, p.stdout + p.stderr
+        lines = [l for l in out.splitlines() if l.startswith("VIOLATION") or l.startswith("KNOWN-FINDING")]
+        verdicts[c] = {"rc": rc, "lines": lines[:3], "wall_s": round(time.time() - t0, 1), "summary": out.strip().splitlines()[-1] if out.strip() else "", "how": label}
+        m = re.search(r"replay=(\S+)", out)
+        if m and os.path.exists(m.group(1)):
+            d = json.load(open(m.group(1)))
+            verdicts[c]["first_case"] = (d.get("cases") or d.get("broken_obligations") or [None])[0]
+
+
+if ok and "--scratch" in sys.argv:
+    # the changed tree stays in its scratch worktree; the check builds its harness against it (ARP_EVAL_REPO), /repo is untouched
+    try:
+        sh("rm -rf %s/examples/demo_%s.rs %s/target" % (wt, letter, wt))
+        run_checks({"ARP_EVAL_REPO": wt}, "check run against the scratch worktree holding the change (ARP_EVAL_REPO); /repo untouched")
+    finally:
+        import hashlib
+        shutil.rmtree("/verif/work/eval-" + hashlib.md5(wt.encode()).hexdigest()[:8], ignore_errors=True)
+        sh("git -C /repo worktree remove --force %s" % wt)
+        shutil.rmtree(wt, ignore_errors=True)
+elif ok:
     rc, out = sh("git -C /repo status --porcelain")
     assert out.strip() == "", "/repo not clean: " + out
     try:
         rc, out = sh("git -C /repo apply %s" % diff)
         assert rc == 0, out
-        for c in checks:
-            t0 = time.time()
-            rc, out = sh("./check.py %s --tier %s" % (c, tier), cwd="/verif", timeout=3600)
-            lines = [l for l in out.splitlines() if l.startswith("VIOLATION") or l.startswith("KNOWN-FINDING")]
-            verdicts[c] = {"rc": rc, "lines": lines[:3], "wall_s": round(time.time() - t0, 1), "summary": out.strip().splitlines()[-1] if out.strip() else ""}
-            # keep a copy of the replay for the record
-            m = re.search(r"replay=(\S+)", out)
-            if m and os.path.exists(m.group(1)):
-                d = json.load(open(m.group(1)))
-                verdicts[c]["first_case"] = (d.get("cases") or [None])[0]
+        run_checks({}, "change applied to /repo, check run, /repo restored")
     finally:
         sh("git -C /repo checkout -- .")
 meta["checks"] = verdicts
